@@ -23,9 +23,10 @@ import (
 // front of the handler. At most one source carries input that cannot bind (letters for a number),
 // at any position. Automatic handling: whichever bind fails, 400 and the automatic error;
 // manual / default: the binder's own error, status untouched.
-// (That c.Bind() returns the same binder for the whole request - so a mode chosen earlier in the
-// request, also by a middleware, is still in force - is what the unchanged tree does; the
-// middleware variant has its own signature suffix because the statement does not spell it out.)
+// Only the first way is a verdict. The other two depend on the mode persisting across separate
+// c.Bind() calls of a request, which the statement does not fix (a maintainer could reset the
+// mode per c.Bind() call): they are run, and what happened is counted
+// (multibind_mode_across_cBind_calls|...|persisted / not-persisted), never reported.
 
 type multiBind struct {
 	op      string
@@ -165,9 +166,6 @@ func (en *engine) multiBindRun(c *ev.Case, split bool, reqs []multiReq) {
 			continue
 		}
 		mw := ""
-		if rq.how == "middleware" {
-			mw = "|mode-chosen-in-middleware"
-		}
 		pos := func(i int) string {
 			if i == 0 {
 				return "first-bind-of-the-request"
@@ -186,6 +184,18 @@ func (en *engine) multiBindRun(c *ev.Case, split bool, reqs []multiReq) {
 				judged = true
 			case mb.bad && !mb.hasErr:
 				e.Violation(c, "totality|"+bop+"|silent-success|not-a-number|in-sequence", "letters for a number bound without an error", det)
+				judged = true
+			case mb.bad && rq.how != "one-binder-value":
+				// The mode was chosen on an earlier c.Bind() call (handler or middleware) and this bind
+				// went through c.Bind() again: whether the choice is still in force for a later
+				// c.Bind() of the request is not fixed by the statement. Observed, never judged.
+				if rq.mode != "default" {
+					kept := mb.wrapped && status == 400
+					if rq.mode == "manual" {
+						kept = !mb.wrapped
+					}
+					e.Stat("multibind_mode_across_cBind_calls|"+rq.how+"|"+rq.mode+"|"+map[bool]string{true: "persisted", false: "not-persisted"}[kept], 1)
+				}
 				judged = true
 			case mb.bad && rq.mode == "auto" && (!mb.wrapped || status != 400):
 				e.Violation(c, "handling-mode|auto-mode|bind-error-not-handled-automatically|"+pos(i)+mw,
@@ -211,7 +221,7 @@ func (en *engine) multiBindRun(c *ev.Case, split bool, reqs []multiReq) {
 
 func (en *engine) multiBind() {
 	e := en.e
-	e.Note("several-binds-per-request", "2-4 sources (query, header, cookie, form or JSON body) bound in one request with the handling mode chosen once (on one binder value / on the first c.Bind() / in a middleware), bad input in at most one source at any position, 1-4 such requests per app: 400 + automatic error for whichever bind fails under automatic handling, the binder's own error otherwise")
+	e.Note("several-binds-per-request", "2-4 sources (query, header, cookie, form or JSON body) bound in one request with the handling mode chosen once (judged: on one binder value reused for every bind; observed only: on an earlier c.Bind() call or in a middleware with later binds through c.Bind() again), bad input in at most one source at any position, 1-4 such requests per app: 400 + automatic error for whichever bind fails under automatic handling, the binder's own error otherwise")
 	pickType := func(r *gen.Rand) *typeSpec {
 		for {
 			t := flatFamily[r.Intn(len(flatFamily))]
